@@ -394,6 +394,18 @@ def main():
         res['status'] = 'error'
         res['error'] = '%s: %s\n%s' % (type(ex).__name__, ex, traceback.format_exc()[-2500:])
     res['wall_s'] = round(time.time() - t00, 2)
+    # disk hygiene: intermediates are regenerated on every run (raw IR, objects, native binaries: ~100 MB per kernel)
+    if not os.environ.get('VF_KEEP'):
+        import glob as _glob
+        for pat in ('*.raw.ll', 'linked.ll', '*.o', 'real_native', 'real_native_san', 'gen_native', 'native_main.cpp', 'cbmc.json'):
+            for fpath in _glob.glob(os.path.join(kdir, pat)):
+                try:
+                    os.remove(fpath)
+                except OSError:
+                    pass
+        kl = os.path.join(kdir, 'kernel.ll')
+        if os.path.exists(kl) and os.path.getsize(kl) > 3000000 and res['status'] == 'pass':
+            os.remove(kl)
     with open(os.path.join(kdir, 'result.json'), 'w') as f:
         json.dump(res, f, indent=1, default=str)
     print('%s %s %s wall=%.1fs' % (kid, tier, res['status'], res['wall_s']))
